@@ -16,7 +16,7 @@ import lib
 import suites
 
 PROP = 'C12'
-LEAN_TARGETS = ['CGV.Props.C12', 'CGV.Props.C12Reach']
+LEAN_TARGETS = ['CGV.Props.C12', 'CGV.Props.C12Reach', 'CGV.Props.C12Order']
 RULE = ('resolutions of fragmented molecules / polymers / multi-level strings: exact correspondence with the Lean '
         'model (a pure function of the input) for every single call of a call history sharing fragment dictionaries in '
         'one process, and in sub-processes under different PYTHONHASHSEED values; permuted fragment definitions; the '
